@@ -366,8 +366,10 @@ pub fn run(ctx: &mut Ctx) {
                     1 => 100000 + r.below(2) as u64,
                     _ => 1 + crate::tys::TYS[r.below(crate::tys::TYS.len())].code as u64,
                 },
-                ("heapTy", _) => match r.below(4) {
+                ("heapTy", _) => match r.below(5) {
                     0 => 1000 + r.below(3) as u64,
+                    // shared abstract heap types (shared-everything-threads)
+                    1 => 101 + r.below(ABSTRACT.len()) as u64,
                     _ => 1 + r.below(ABSTRACT.len()) as u64,
                 },
                 _ => panic!("unknown parameter type {p}"),
